@@ -509,6 +509,13 @@ def output_directive(chk: core.Check, ext, per_family):
             if ':' in a and len(na) == len(nb) and na:
                 lines.append(f'uconv o{len(lmeta)} from={enc(unit)} to={enc(new)} x={core.frac(float(na[0].replace(",", "")))}')
                 lmeta.append((key, new, label, a, b, na[0], nb[0], rep))
+            elif ':' not in a and len(na) == len(nb) and na:
+                # a table row: every cell that changed must be the old cell converted by the exact factor (the column's header carries the label)
+                for col, (ca, cb) in enumerate(zip(na, nb)):
+                    if ca != cb:
+                        lines.append(f'uconv o{len(lmeta)} from={enc(unit)} to={enc(new)} x={core.frac(float(ca.replace(",", "")))}')
+                        lmeta.append((key, new, f'table column {col}', a, b, ca, cb, rep))
+                        break     # one cell per row is enough (rows of one table share the column)
     if lines:
         er = chk.driver(lines)
         for j, (key, new, label, a, b, na, nb, rep) in enumerate(lmeta):
